@@ -226,8 +226,10 @@ func (p *Plan) planMergedFieldChildren(fp *fieldPlan) {
 // Concurrency-safe: ExecutePlan resolves fields concurrently, so several
 // goroutines may reach the same abstract field at once.
 func (p *Plan) abstractAlternative(fp *fieldPlan, runtimeType *Object) *selectionPlan {
+	verifEvent("plan.abstract.enter", p, fp, runtimeType)
 	p.abstractMu.Lock()
 	defer p.abstractMu.Unlock()
+	verifEvent("plan.abstract.locked", p, fp, runtimeType)
 	if fp.abstractAlternatives == nil {
 		fp.abstractAlternatives = map[*Object]*selectionPlan{}
 	}
@@ -236,6 +238,7 @@ func (p *Plan) abstractAlternative(fp *fieldPlan, runtimeType *Object) *selectio
 	}
 	sub := p.planMergedSelectionsForType(runtimeType, fp.fieldASTs)
 	fp.abstractAlternatives[runtimeType] = sub
+	verifEvent("plan.abstract.built", p, fp, runtimeType)
 	return sub
 }
 
@@ -244,6 +247,7 @@ func (p *Plan) abstractAlternative(fp *fieldPlan, runtimeType *Object) *selectio
 // selectionPlan that mirrors what completeObjectValue's runtime
 // collectFields loop would produce.
 func (p *Plan) planMergedSelectionsForType(parentType *Object, fieldASTs []*ast.Field) *selectionPlan {
+	verifCount(1)
 	sp := &selectionPlan{parentType: parentType}
 	keyed := map[string]int{}
 	visited := map[string]bool{}
@@ -280,6 +284,7 @@ func (p *Plan) planMergedSelectionsForType(parentType *Object, fieldASTs []*ast.
 // collectFields's `fields[name] = append(fields[name], selection)`).
 func (p *Plan) collectInto(parentType *Object, selectionSet *ast.SelectionSet, visitedFragmentNames map[string]bool, sp *selectionPlan, keyed map[string]int, parentPred func(map[string]interface{}) bool) {
 	for _, iSelection := range selectionSet.Selections {
+		verifCount(0)
 		switch sel := iSelection.(type) {
 		case *ast.Field:
 			pred, alwaysSkip := planDirectives(sel.Directives)
